@@ -170,8 +170,9 @@ class Effects:
     """Record everything an operation does to the outside: stream bytes, file-system events
     (audit hook), sandbox snapshot diff.  cwd is <root>/cwd."""
 
-    def __init__(self, root, tty=False, no_color=False, plan=None, cwd_rel="cwd"):
+    def __init__(self, root, tty=False, no_color=False, plan=None, cwd_rel="cwd", extra_env=None):
         self.cwd_rel = cwd_rel
+        self.extra_env = extra_env
         self.root = os.path.realpath(root)
         self.tty = tty
         self.no_color = no_color
@@ -187,6 +188,8 @@ class Effects:
         self.old_cwd = os.getcwd()
         os.chdir(os.path.join(root, self.cwd_rel))
         seams.set_terminal_env(root, no_color=self.no_color)
+        if self.extra_env:
+            os.environ[self.extra_env] = "1"  # e.g. FORCE_COLOR / TTY_COMPATIBLE as CI systems set them
         self.before = seams.snapshot(root)
         self.out, self.err = seams.Rec(self.tty, "<stdout>"), seams.Rec(self.tty, "<stderr>")
         self.saved = (sys.stdout, sys.stderr, V.__dict__.get("open"), H.__dict__.get("open"))
